@@ -8,13 +8,16 @@ for d in sorted(glob.glob(V + '/harness/*/')):
     if p == 'verif':
         continue
     names = set()
+    tagged = True
     for f in glob.glob(d + '*.go'):
         if f.endswith('_test.go'):
             continue
+        if '//go:build verif' not in open(f).read():
+            tagged = False
         names |= set(re.findall(r'^func (Harness[A-Za-z0-9_]*)\(\)', open(f).read(), re.M))
     if not names:
         continue
-    out = 'package %s\n\nimport (\n\t"testing"\n\n\t"gjvharness/verif"\n)\n\nfunc TestReplay(t *testing.T) {\n\tverif.ReplayMain(map[string]func(){\n' % p
+    out = ('//go:build verif\n\n' if tagged else '') + 'package %s\n\nimport (\n\t"testing"\n\n\t"gjvharness/verif"\n)\n\nfunc TestReplay(t *testing.T) {\n\tverif.ReplayMain(map[string]func(){\n' % p
     w = max(len(n) for n in names) + 3
     for n in sorted(names):
         out += '\t\t%s %s,\n' % (('"%s":' % n).ljust(w), n)
